@@ -615,7 +615,7 @@ fn fault_plan(thorough: bool) -> Plan {
     sort_by_bound(&mut cases);
     let mut p = Plan::new(
         cases,
-        "crashx fault enumeration: for every traced operation of the history set H3 (commits, overlay commits, rollbacks, reopens; see C03) and EVERY mutating or syncing file operation it performs — identified by (file, kind, ordinal) from a fault-free reference run — the history is re-executed and that operation is made to fail with EIO, (a) once and (b) persistently from then on; page writes through the I/O pool fail both at submission (not performed) and at completion (performed, reported failed). Oracle per injected run: the call returns an error (success with the failure inside the call = swallowed failure; panic; hang detected by a per-case watchdog with resume), the handle is poisoned and refuses a further commit, and after drop a fault-free reopen shows exactly the pre-state (or the post-state, only if the meta fsync had completed). Bucket exhaustion: tables of 4/5/7/8 buckets with cluster batches needing more pages than fit: the commit must return an error (not hang), poison, and leave the pre-state. transitions = injected executions.",
+        "crashx fault enumeration: for every traced operation of the history set H3 (commits, overlay commits, rollbacks, reopens; see C03) and EVERY mutating or syncing file operation it performs — identified by (file, kind, ordinal) from a fault-free reference run — the history is re-executed and that operation is made to fail with EIO, (a) once and (b) persistently from then on; page writes through the I/O pool fail both at submission (not performed) and at completion (performed, reported failed); and for every page write the raw completion-queue entry is replaced (hook in the io_uring worker, before the result is interpreted) by (c) -EIO while the worker thread's errno holds a stale EINTR — must be reported like any failed write, (d) a short count once — the write must be repeated and the call succeed with exactly the new state after a reopen, (e) a short count every time — the call must end with an error, never hang. Oracle per injected run: the call returns an error (success with the failure inside the call = swallowed failure; panic; hang detected by a per-case watchdog with resume), the handle is poisoned and refuses a further commit, and after drop a fault-free reopen shows exactly the pre-state (or the post-state, only if the meta fsync had completed). Bucket exhaustion: tables of 4/5/7/8 buckets with cluster batches needing more pages than fit: the commit must return an error (not hang), poison, and leave the pre-state. transitions = injected executions.",
     );
     p.level = "fault_enumeration";
     p.budget_s = if thorough { 1700 } else { 55 };
